@@ -20,7 +20,7 @@ const AD: usize = 2;
 macro_rules! alloc_tamper_harness {
     ($name:ident, $len:expr) => {
         #[kani::proof]
-        #[kani::unwind(34)]
+        #[kani::unwind(20)]
         #[kani::stub(zeroize::optimization_barrier, noop_barrier)]
         pub fn $name() {
             const LEN: usize = $len;
@@ -68,7 +68,7 @@ macro_rules! alloc_tamper_harness {
         }
     };
 }
-//@h name=c06_l3_alloc_flip_len0 tier=quick mode=func timeout=1800 desc="allocating API, ideal AEAD, empty plaintext: the sealed message with one bit flipped at any position of the tag, or one aad bit flipped, is rejected by open() with OpenError and the receiver position is unchanged" bounds="key, base nonce, seq symbolic; plaintext length 0; aad 1..=2 B; flip position symbolic over all bits; unwind 34"
+//@h name=c06_l3_alloc_flip_len0 tier=quick mode=func timeout=1800 desc="allocating API, ideal AEAD, empty plaintext: the sealed message with one bit flipped at any position of the tag, or one aad bit flipped, is rejected by open() with OpenError and the receiver position is unchanged" bounds="key, base nonce, seq symbolic; plaintext length 0; aad 1..=2 B; flip position symbolic over all bits; unwind 20"
 alloc_tamper_harness!(c06_l3_alloc_flip_len0, 0);
 //@h name=c06_l3_alloc_flip_len3 tier=quick mode=func timeout=1800 desc="same for a 3-byte plaintext: any single-bit flip in ciphertext||tag or aad => OpenError" bounds="plaintext length 3 (contents symbolic); otherwise as len0"
 alloc_tamper_harness!(c06_l3_alloc_flip_len3, 3);
@@ -77,7 +77,7 @@ alloc_tamper_harness!(c06_l3_alloc_flip_len3, 3);
 macro_rules! alloc_resize_harness {
     ($name:ident, $len:expr, $wire:expr) => {
         #[kani::proof]
-        #[kani::unwind(34)]
+        #[kani::unwind(20)]
         #[kani::stub(zeroize::optimization_barrier, noop_barrier)]
         pub fn $name() {
             const LEN: usize = $len;
@@ -122,9 +122,9 @@ alloc_resize_harness!(c06_l3_alloc_trunc_3_2, 3, 2);
 //@h name=c06_l3_alloc_ext_3_21 tier=thorough mode=func timeout=1200 desc="3-byte plaintext with two arbitrary bytes appended => OpenError" bounds="wire 19 -> 21 bytes"
 alloc_resize_harness!(c06_l3_alloc_ext_3_21, 3, 21);
 
-//@h name=c06_l3_cross_substitution tier=quick mode=func timeout=1800 desc="two messages sealed by the same sender: presenting message 0's ciphertext with message 1's tag, or with message 1's aad, or message 1's ciphertext with message 0's tag, at position 0 is rejected with OpenError unless the substituted component is byte-identical" bounds="key, base nonce, seq symbolic; plaintexts 0..=3 B, aads 0..=2 B; in-place detached API; ideal AEAD; unwind 34"
+//@h name=c06_l3_cross_substitution tier=quick mode=func timeout=1800 desc="two messages sealed by the same sender: presenting message 0's ciphertext with message 1's tag, or with message 1's aad, or message 1's ciphertext with message 0's tag, at position 0 is rejected with OpenError unless the substituted component is byte-identical" bounds="key, base nonce, seq symbolic; plaintexts 0..=3 B, aads 0..=2 B; in-place detached API; ideal AEAD; unwind 20"
 #[kani::proof]
-#[kani::unwind(34)]
+#[kani::unwind(20)]
 #[kani::stub(zeroize::optimization_barrier, noop_barrier)]
 pub fn c06_l3_cross_substitution() {
     let key: [u8; 16] = kani::any();
